@@ -82,10 +82,10 @@ LINK = [R + '/librfn/' + f for f in ('fibre.c', 'list.c', 'messageq.c', 'util.c'
 def harness(ctx, bounds=True):
     """ASan + -fsanitize=bounds; `bounds=False` (ASan only) is used to show what an out-of-bounds index does next"""
     if bounds:
-        exe, log = ctx.cc('h_console', [os.path.join(vlib.VERIF, 'harness/h_console.c')] + LINK, ['-I' + R + '/librfn'])
+        exe, log = ctx.cc('h_console', [os.path.join(vlib.VERIF, 'harness/h_console.c')] + LINK, ['-I' + R + '/librfn'] + ctx.FORKMAIN)
     else:
         exe, log = ctx.cc('h_console_nb', [os.path.join(vlib.VERIF, 'harness/h_console.c')] + LINK,
-                          ['-I' + R + '/librfn', '-fsanitize=address', '-fno-omit-frame-pointer'], san=False)
+                          ['-I' + R + '/librfn', '-fsanitize=address', '-fno-omit-frame-pointer'] + ctx.FORKMAIN, san=False)
     if not exe:
         raise vlib.Unbuildable('console harness does not compile against the repository: ' + log[-1500:])
     return exe
